@@ -50,3 +50,16 @@ Example C10_burst_example :
   let sh := w_sh (reach true 64 sched) in
   ylog sh 3 = [1; 2; 3; 4; 5]%Z /\ nstored sh 3 = 7 /\ length (begun sh 3) = 7 /\ slot sh 3 = [].
 Proof. vm_compute. repeat split; reflexivity. Qed.
+
+(** Non-vacuity for "several batches scanned concurrently": two batches handed out before a delivery
+    of signal 3, then walked in alternation (two threads, one load each in turn - [LBatch] steps of
+    different batches interleave freely in every theorem above): the delivery is yielded exactly once. *)
+Example C10_two_scanners_example :
+  let sched := [LSpawnA 3; LStep 0; LStep 0; LStep 0] ++
+               [LCall OPending; LCons 0; LCall OPending; LCons 0] ++
+               [LSpawnH 3 7; LStep 1; LStep 1] ++
+               flat_map (fun _ => [LBatch 0; LBatch 1]) (seq 0 140) in
+  let sh := w_sh (reach false 64 sched) in
+  ylog sh 3 = [zn 3] /\ nstored sh 3 = 1 /\ length (begun sh 3) = 1 /\ slot sh 3 = [] /\
+  w_bats (reach false 64 sched) = [MAX_SIGNUM; MAX_SIGNUM].
+Proof. vm_compute. repeat split; reflexivity. Qed.
